@@ -14,10 +14,11 @@ internal errors met on ill-formed payloads are counted (they show the hypothesis
 """
 import json
 
-from prosemirror.model import Slice
+from prosemirror.model import Fragment, Schema, Slice
 from prosemirror.transform import AddMarkStep, RemoveMarkStep, ReplaceAroundStep, ReplaceStep, Step
 
 from .. import core, gen, schemas
+from ..codec import SchemaInfo
 from ..core import outcome
 from ..validator import validator
 
@@ -188,6 +189,13 @@ def run(ctx):
         if len(reqs) >= 15000:
             flush()     # keep memory bounded in long runs
         info = fam[si % len(fam)] if si < len(fam) or rng.random() < 0.4 else schemas.random_schema(rng)
+        aimed_inside_text = si == len(fam)
+        if aimed_inside_text:
+            # aimed: a textblock that wants its images before its text; replace-around steps that re-wrap a textblock's content
+            # in a slice node and put it *inside the text* of that node (see open finding C01-insert-inside-text)
+            info = SchemaInfo(Schema({"nodes": {"doc": {"content": "para+"}, "para": {"content": "image* text*"},
+                                                "image": {"inline": True, "group": "inline"}, "text": {"group": "inline"}},
+                                      "marks": {"em": {}}}), "random")
         schema = info.schema
         val = validator(schema)
         ctx.driver.add_schema(info)
@@ -202,6 +210,15 @@ def run(ctx):
                 if ctx.time_left() < 0:
                     break
                 step = gen.gen_step(rng, info, d, docs)
+                if aimed_inside_text and k % 2 == 0 and d.child_count:
+                    i0 = rng.randrange(d.child_count)
+                    a0 = sum(d.child(j).node_size for j in range(i0))
+                    x0 = d.child(i0)
+                    txt = gen.gen_text(rng, 2, 4, plain=True)
+                    step = ReplaceAroundStep(a0, a0 + x0.node_size, a0 + 1, a0 + x0.node_size - 1,
+                                             Slice(Fragment.from_(x0.type.create(x0.attrs, [schema.text(txt)])), 0, 0),
+                                             1 + rng.randint(1, len(txt) - 1), rng.random() < 0.3)
+                    ctx.count("aimed_insert_inside_text_steps")
                 via_json = rng.random() < 0.3
                 if via_json:
                     stj, step2 = outcome(lambda: Step.from_json(schema, json.loads(json.dumps(step.to_json()))))
